@@ -3,7 +3,7 @@
 From Coq Require Import String.
 From Coq Require Import List Bool Arith Reals.
 From NV Require Import Base.Exn Gen.Tables Model.FitCore Model.Steps Model.Features
-                       Proofs.FitCoreP Proofs.StepsP Proofs.PocP Proofs.FeaturesP.
+                       Proofs.FitCoreP Proofs.StepsP Proofs.PocP Proofs.FeaturesP Proofs.FeaturesMoreP.
 Import ListNotations.
 Local Open Scope R_scope.
 
@@ -70,3 +70,28 @@ Theorem C17_scale_invariant_idt_sum : forall k cp x y fit, 0 < k -> y <> [] ->
   r_list_max y <> r_list_min y ->
   r_idt_sum_core cp x (map (fun v => k * v) y) (map (fun v => k * v) fit) = r_idt_sum_core cp x y fit.
 Proof. exact idt_sum_core_scale. Qed.
+
+(* the filter-free baseline / contact-point features: baseline variation (means of the first
+   and last ten baseline residuals), baseline slope (least-squares line through the outer
+   half of the baseline), curvature at the contact point (force minus the straight line
+   between its extremes) *)
+Theorem C17_scale_invariant_bln_variation : forall k cp x y res, 0 < k -> y <> [] ->
+  r_list_max y <> 0 ->
+  r_bln_variation_core cp x (map (fun v => k * v) y) (map (fun v => k * v) res)
+  = r_bln_variation_core cp x y res.
+Proof. exact bln_variation_core_scale. Qed.
+
+Theorem C17_magnitude_bln_variation : forall cp x y res v, 0 < r_list_max y ->
+  r_bln_variation_core cp x y res = Some v -> 0 <= v.
+Proof. exact bln_variation_core_nonneg. Qed.
+
+Theorem C17_scale_invariant_bln_slope : forall k cp x y res, 0 < k -> y <> [] ->
+  r_list_max y <> 0 ->
+  r_bln_slope_core cp x (map (fun v => k * v) y) (map (fun v => k * v) res)
+  = r_bln_slope_core cp x y res.
+Proof. exact bln_slope_core_scale. Qed.
+
+Theorem C17_scale_invariant_cp_curvature : forall k cp x y, 0 < k -> y <> [] ->
+  r_list_max y <> 0 ->
+  r_cp_curvature_core cp x (map (fun v => k * v) y) = r_cp_curvature_core cp x y.
+Proof. exact cp_curvature_core_scale. Qed.
